@@ -120,10 +120,28 @@ func monitorC10(cfg CheckConfig, res *hx.Result, traces []*Trace) error {
 			}
 			outAddr := Dec(u.Addrs[out].Bytes())
 			g := &genState{u: u, r: r, chain: chain, nonce: 1 << 32}
-			x, class := refusedTx(r, u, g, r.Intn(8), chain, executed, out)
+			kind := r.Intn(11)
+			var x *TxSpec
+			class := ""
+			if kind < 8 {
+				x, class = refusedTx(r, u, g, kind, chain, executed, out)
+			} else {
+				// a structurally invalid payload, correctly signed by a keyper
+				aim := NewImpl(u)
+				for _, op := range t.H.Ops[:at] {
+					if op.Kind != "state" {
+						aim.Do(op)
+					}
+				}
+				x, class = malformedTx(r, u, g, aim, nUniverse, chain)
+				if x != nil {
+					outAddr = Dec(u.Addrs[x.Signer].Bytes())
+				}
+			}
 			if x == nil {
 				continue
 			}
+			malformed := strings.HasPrefix(class, "malformed:")
 			res.Count("c10:inject:" + strings.SplitN(class, ":", 2)[0])
 			if strings.HasPrefix(class, "outsider:") {
 				res.Count("c10:" + class)
@@ -138,7 +156,9 @@ func monitorC10(cfg CheckConfig, res *hx.Result, traces []*Trace) error {
 			co, do := tw.Impl[at].Obs, tw.Impl[at+1].Obs
 			if tw.Impl[at].Panic != "" || tw.Impl[at+1].Panic != "" {
 				fail = "panic on a refused transaction: " + tw.Impl[at].Panic + tw.Impl[at+1].Panic
-			} else if co == "code=0" {
+			} else if co == "code=0" && !malformed {
+				// (the mempool check looks at the envelope and the sender only; a keyper's malformed payload is
+				// refused when the block is executed)
 				fail = "mempool check accepted a " + class + " transaction"
 			} else if strings.HasPrefix(do, "code=0") || !strings.HasSuffix(do, "ev=[]") {
 				fail = "block execution answered a " + class + " transaction with " + do
@@ -187,6 +207,75 @@ func monitorC10(cfg CheckConfig, res *hx.Result, traces []*Trace) error {
 		}
 	}
 	return nil
+}
+
+// malformedTx is a correctly signed transaction of a current keyper whose payload breaks a structural rule of
+// its message type: a batch config without keypers, with a repeated keyper, with an address of the wrong
+// length, with threshold zero or above the number of keypers (up to 2^64-1); a check-in whose validator key is
+// not 32 bytes or whose encryption key is not a compressed secp256k1 point.
+func malformedTx(r *hx.Rand, u *Universe, g *genState, aim *Impl, nUniverse int, chain string) (*TxSpec, string) {
+	members := []int{}
+	for i := 0; i < nUniverse; i++ {
+		for _, c := range aim.App.Configs {
+			if c.IsKeyper(u.Addrs[i]) {
+				members = append(members, i)
+				break
+			}
+		}
+	}
+	if len(members) == 0 {
+		return nil, ""
+	}
+	signer := members[r.Intn(len(members))]
+	last := aim.App.Configs[len(aim.App.Configs)-1]
+	nk := 1 + r.Intn(nUniverse)
+	ks := [][]byte{}
+	for _, i := range r.Perm(nUniverse)[:nk] {
+		ks = append(ks, u.Addrs[i].Bytes())
+	}
+	bc := Payload{Kind: "bc", A: last.ActivationBlockNumber + uint64(r.Intn(2)), T: uint64(1 + r.Intn(nk)), I: last.KeyperConfigIndex + 1, Addrs: ks}
+	var p Payload
+	class := ""
+	switch r.Intn(9) {
+	case 0:
+		bc.T = 0
+		p, class = bc, "malformed:bc-threshold-0"
+	case 1:
+		bc.T = uint64(nk) + 1 + uint64(r.Intn(2))
+		p, class = bc, "malformed:bc-threshold-above-n"
+	case 2:
+		bc.T = []uint64{1 << 63, 1<<63 + 1, ^uint64(0), 1<<63 + uint64(nk), 1 << 32, 1<<32 + 1}[r.Intn(6)]
+		p, class = bc, "malformed:bc-threshold-huge"
+	case 3:
+		bc.Addrs, bc.T = nil, uint64(r.Intn(2))
+		p, class = bc, "malformed:bc-no-keypers"
+	case 4:
+		bc.Addrs = append(bc.Addrs, bc.Addrs[0])
+		p, class = bc, "malformed:bc-repeated-keyper"
+	case 5:
+		if r.Bool() {
+			bc.Addrs[0] = append([]byte{}, bc.Addrs[0][:19]...)
+		} else {
+			bc.Addrs[0] = append(append([]byte{}, bc.Addrs[0]...), 7)
+		}
+		p, class = bc, "malformed:bc-address-length"
+	case 6:
+		p, class = Payload{Kind: "ci", ValKey: valKey(signer)[:31], EncKey: encKey(0)}, "malformed:ci-validator-key-length"
+	case 7:
+		ek := [][]byte{{}, {2, 1, 2, 3}, append([]byte{2}, bytesOf(0xFF, 32)...), append([]byte{5}, encKey(0)[1:]...), encKey(0)[:32]}[r.Intn(5)]
+		p, class = Payload{Kind: "ci", ValKey: valKey(signer), EncKey: ek}, "malformed:ci-encryption-key"
+	default:
+		p, class = Payload{Kind: "ci", ValKey: append(valKey(signer), 1), EncKey: encKey(1)}, "malformed:ci-validator-key-length"
+	}
+	return &TxSpec{Signer: signer, Chain: chain, Nonce: g.freshNonce(), P: p}, class
+}
+
+func bytesOf(b byte, n int) []byte {
+	out := make([]byte, n)
+	for i := range out {
+		out[i] = b
+	}
+	return out
 }
 
 // stripNonces removes the outsider's entries from the nonce sets of a canonical state string.
